@@ -1326,6 +1326,13 @@ func stateAnyCommentStart(s *Scanner, c byte) state {
 		return scanContinue
 	}
 
+	// Two hashes may still become the opener of a block comment: the byte which
+	// cannot continue the text is the one behind them (the second hash itself when
+	// the text ends here).
+	if s.index < s.dataSize {
+		s.index++
+		panic(s.newDocumentErrorAtCharacter("after ##"))
+	}
 	panic(s.newDocumentErrorAtCharacter("after first #"))
 }
 
